@@ -105,33 +105,36 @@ Lemma load_ext d p q a p1 acc :
   exists q1, p_load d q a = (q1, acc) /\ ext d p1 q1 /\ p_accounts p1 a = Some acc /\ p_accounts q1 a = Some acc /\
              (loaded_ok d p -> loaded_ok d p1).
 Proof.
-  intros Hwf He Hl. unfold p_load in *.
+  intros Hwf He Hl. pose proof He as [HeA HeS HeC HeT]. unfold p_load in *.
   destruct (p_accounts p a) as [pa|] eqn:Ep.
-  - inversion Hl; subst p1 acc. destruct (E_acct _ _ _ He a) as [E|[E _]]; [|congruence].
-    rewrite Ep in E. rewrite E. exists q. repeat split; auto; apply He.
+  - inversion Hl; subst p1 acc. destruct (HeA a) as [E|[E _]]; [|congruence].
+    rewrite Ep in E. exists q. rewrite E. split; [reflexivity|]. split; [exact He|].
+    split; [exact Ep|]. split; [reflexivity|auto].
   - inversion Hl; subst p1 acc. clear Hl.
-    assert (Hslot : forall q', (forall b k, pslot q' b k = pslot q b k) ->
-              forall b k, pslot q' b k = pslot (p_put p a (load_pair d a)) b k \/
-                (pslot (p_put p a (load_pair d a)) b k = None /\
-                 pslot q' b k = Some (base_of d b (p_accounts (p_put p a (load_pair d a)) b) k))).
-    { intros q' Hq' b k. rewrite Hq'. change (pslot (p_put p a (load_pair d a)) b k) with (pslot p b k).
-      destruct (E_slot _ _ _ He b k) as [E|[E1 E2]]; [now left|]. right. split; [exact E1|]. rewrite E2. f_equal.
-      simpl. unfold fset. destruct (N.eqb_spec b a) as [->|]; [|reflexivity].
+    assert (Hslot : forall b k, pslot q b k = pslot p b k \/
+                (pslot p b k = None /\
+                 pslot q b k = Some (base_of d b (fset (p_accounts p) a (load_pair d a) b) k))).
+    { intros b k. destruct (HeS b k) as [E|[E1 E2]]; [now left|]. right. split; [exact E1|]. rewrite E2. f_equal.
+      unfold fset. destruct (N.eqb_spec b a) as [->|]; [|reflexivity].
       rewrite Ep. symmetry. now apply base_load. }
     assert (Hok : loaded_ok d p -> loaded_ok d (p_put p a (load_pair d a))).
     { intros H b acc. simpl. unfold fset. destruct (N.eqb_spec b a) as [->|]; [|apply H].
       intros E. inversion E; subst. apply load_pair_ok. }
-    destruct (E_acct _ _ _ He a) as [E|[_ E]].
-    + rewrite Ep in E. rewrite E. eexists. split; [reflexivity|]. split; [|split; [apply fset_same|split; [apply fset_same|exact Hok]]].
-      split; simpl.
-      * intros b. unfold fset. destruct (b =? a); [now left|apply He].
-      * apply Hslot. reflexivity.
-      * apply He. * apply He.
-    + rewrite E. exists q. split; [reflexivity|]. split; [|split; [apply fset_same|split; [exact E|exact Hok]]].
-      split; simpl.
-      * intros b. unfold fset. destruct (N.eqb_spec b a) as [->|]; [now left|apply He].
-      * apply Hslot. reflexivity.
-      * apply He. * apply He.
+    destruct (HeA a) as [E|[_ E]].
+    + rewrite Ep in E. rewrite E. eexists. split; [reflexivity|].
+      split; [|split; [apply fset_same|split; [apply fset_same|exact Hok]]].
+      apply mkExt.
+      * intros b. simpl. unfold fset. destruct (b =? a); [now left|apply HeA].
+      * exact Hslot.
+      * exact HeC.
+      * exact HeT.
+    + rewrite E. exists q. split; [reflexivity|].
+      split; [|split; [apply fset_same|split; [exact E|exact Hok]]].
+      apply mkExt.
+      * intros b. simpl. unfold fset. destruct (N.eqb_spec b a) as [->|]; [now left|apply HeA].
+      * exact Hslot.
+      * exact HeC.
+      * exact HeT.
 Qed.
 
 (* same account replaced on both sides; the base answer of its uncached slots must not move *)
@@ -140,14 +143,14 @@ Lemma put_ext d p q a acc acc' :
   (forall k, base_of d a (Some acc') k = base_of d a (Some acc) k) ->
   ext d (p_put p a acc') (p_put q a acc').
 Proof.
-  intros He Ep Eq Hb. split; simpl.
-  - intros b. unfold fset. destruct (b =? a); [now left|apply He].
+  intros [HeA HeS HeC HeT] Ep Eq Hb. apply mkExt.
+  - intros b. simpl. unfold fset. destruct (b =? a); [now left|apply HeA].
   - intros b k. change (pslot (p_put q a acc') b k) with (pslot q b k).
     change (pslot (p_put p a acc') b k) with (pslot p b k).
-    destruct (E_slot _ _ _ He b k) as [E|[E1 E2]]; [now left|]. right. split; [exact E1|]. rewrite E2. f_equal.
-    unfold fset. destruct (N.eqb_spec b a) as [->|]; [|reflexivity]. rewrite Ep. symmetry. apply Hb.
-  - apply He.
-  - apply He.
+    destruct (HeS b k) as [E|[E1 E2]]; [now left|]. right. split; [exact E1|]. rewrite E2. f_equal.
+    simpl. unfold fset. destruct (N.eqb_spec b a) as [->|]; [|reflexivity]. rewrite Ep. symmetry. apply Hb.
+  - exact HeC.
+  - exact HeT.
 Qed.
 
 Lemma put_ok d p a acc' : loaded_ok d p -> acc_ok d a acc' -> loaded_ok d (p_put p a acc').
